@@ -98,6 +98,8 @@ struct Case {
     dpre: usize, dpost: usize, cause: Cause, phase: Phase, reqs: u64, flood: u64, conns: usize,
     /// staggered: connection 0 ends by `cause` (while idle) and the others survive in `phase` until `cause2`
     stag: bool, cause2: Cause,
+    /// two servers built the same way share the one peer registry; odd-numbered connections go to the second
+    two: bool,
 }
 impl Case {
     /// the cause that ends the connections that end together (all of them, or the survivors)
@@ -134,6 +136,7 @@ fn parse_case(line: &str) -> Option<Case> {
         reqs: ph(f.get("reqs")?)?, flood: ph(f.get("flood")?)?, conns: ph(f.get("conns")?)? as usize,
         stag: f.get("stag").map(|s| s == "1").unwrap_or(false),
         cause2: match f.get("cause2").map(|s| s.as_str()) { None | Some("-") => Cause::Close, Some(s) => parse_cause(s)? },
+        two: f.get("two").map(|s| s == "1").unwrap_or(false),
     })
 }
 
@@ -304,6 +307,7 @@ async fn hand_rolled_upgrade(stream: TcpStream) -> std::io::Result<(TcpStream, h
 
 struct ServerCtl {
     addr: std::net::SocketAddr,
+    addr2: Option<std::net::SocketAddr>,
     mode: Mode,
     tasks: Vec<tokio::task::JoinHandle<()>>,
     conn_aborts: Arc<Mutex<Vec<tokio::task::AbortHandle>>>,
@@ -368,6 +372,14 @@ fn start_server(c: &Case, w: &Arc<World>) -> Result<ServerCtl, String> {
     let token = ShutdownToken::new();
     let mut tasks = vec![];
     let mut drain_tx = None;
+    let mut addr2 = None;
+    if c.two {
+        if c.mode != Mode::Listener || !c.reg { return Err("badcase:two".into()); }
+        let l2 = bind_listener(false)?;
+        addr2 = Some(l2.local_addr().map_err(|e| format!("addr:{e}"))?);
+        let srv2 = build_server(c, w);
+        tasks.push(tokio::spawn(async move { let _ = srv2.serve_listener(l2, "/repe").await; }));
+    }
     match c.mode {
         Mode::Listener => tasks.push(tokio::spawn(async move { let _ = srv.serve_listener(listener, "/repe").await; })),
         Mode::Drain => {
@@ -391,7 +403,7 @@ fn start_server(c: &Case, w: &Arc<World>) -> Result<ServerCtl, String> {
             }));
         }
     }
-    Ok(ServerCtl { addr, mode: c.mode, tasks, conn_aborts, token, drain_tx })
+    Ok(ServerCtl { addr, addr2, mode: c.mode, tasks, conn_aborts, token, drain_tx })
 }
 
 // ---------------------------------------------------------------- the raw peer
@@ -633,7 +645,7 @@ async fn run_async(c: Case) -> Result<String, String> {
     } else {
         expected_recs = n;
         let bars: Arc<Vec<tokio::sync::Barrier>> = Arc::new((0..5).map(|_| tokio::sync::Barrier::new(n + 1)).collect());
-        let js: Vec<_> = (0..n).map(|i| tokio::spawn(client(i, ca.clone(), ctl.addr, bars.clone()))).collect();
+        let js: Vec<_> = (0..n).map(|i| tokio::spawn(client(i, ca.clone(), if i % 2 == 1 { ctl.addr2.unwrap_or(ctl.addr) } else { ctl.addr }, bars.clone()))).collect();
         macro_rules! bar { ($k:expr, $d:expr) => { if tokio::time::timeout(Duration::from_secs($d), bars[$k].wait()).await.is_err() { w.stop.store(true, SeqCst); w.release.store(true, SeqCst); w.trigger.store(true, SeqCst); ctl.teardown(); return Err(format!("timeout:barrier{}", $k)); } } }
         bar!(0, 20);
         let alive = !c.panic_reached() && c.phase != Phase::Hooks;
@@ -839,6 +851,16 @@ fn gen_cases(seed: u64, thorough: bool) -> Vec<String> {
                     out.push(case_line(out.len(), mode, "ok", ctx, &h, cause, phase, rng.range(1, 2), 0, conns_of(&mut rng)));
                 }
             }
+        }
+        // two servers built alike share one peer registry (the ids they hand out must not collide,
+        // whatever the order in which hooks and registry were attached)
+        for k in 0..(if thorough { 6 } else { 3 }) {
+            let mut h = gen_hooks(&mut rng);
+            h.reg = true; h.xh.clear();
+            if k % 3 != 2 && h.pre.is_empty() { h.pre.push(Hact::Count); }
+            h.pre.retain(|x| *x != Hact::Panic && *x != Hact::Sleep); h.post.retain(|x| *x != Hact::Panic && *x != Hact::Sleep);
+            let cause = *rng.pick(&["close", "loss"]);
+            out.push(format!("{} two=1", case_line(out.len(), "l", "ok", false, &h, cause, "idle", rng.range(1, 2), 0, rng.range(2, 4))));
         }
         // failed handshakes: nothing may run
         for mode in ["l", "d", "s"] {
